@@ -485,3 +485,30 @@ func allNilFrom(v ssa.Value, reach map[*ssa.BasicBlock]bool, start []Edge) bool 
 	}
 	return walk(v)
 }
+
+// CutEdges (R2): each of the given edges is taken only after crossing the
+// guard: the edge is itself a guard edge, or its source block is unreachable
+// without crossing one.
+func (c *Ctx) CutEdges(fn *ssa.Function, desc string, edges []Edge, g Guard) bool {
+	site := "edge{" + desc + "} guard{" + g.Desc + "}"
+	if len(edges) == 0 {
+		c.Undecided(fn, site, token.NoPos, "edge not found: "+desc)
+		return false
+	}
+	gs := map[Edge]bool{}
+	for _, e := range g.Edges {
+		gs[e] = true
+	}
+	for _, e := range edges {
+		if gs[e] {
+			continue
+		}
+		term := e.From.Instrs[len(e.From.Instrs)-1]
+		if h := Reach(Query{Fn: fn, Blocked: g.Edges, Target: func(in ssa.Instruction) bool { return in == term }}); h != nil {
+			c.Violation(fn, site, posOf(term), desc+" can happen without crossing the guard", h.Witness)
+			return false
+		}
+	}
+	c.OK(fn, site, posOf(edges[0].From.Instrs[len(edges[0].From.Instrs)-1]), fmt.Sprintf("all %d edge(s) lie behind the guard", len(edges)))
+	return true
+}
